@@ -40,7 +40,7 @@ def run(tier: str, keep: bool = False) -> int:
     # test "!= IGNORE_ERROR" stop what they were doing): one table with it everywhere, both sides
     sus = "[c \\in DOMAIN FhDefault |-> \"suspend\"]"
     r.solo("dstSuspend", "D", f'Numbered({{ [SoloBase(1, 1, 2) EXCEPT !.mode = m, !.closure = TRUE, !.fhD = {sus}, !.immNak = FALSE] : m \\in {{"ACK", "UNACK"}} }})',
-           ["md", "mdwrej", "fd", "fdodd", "wrej", "eof", "eofodd", "tick", "poll"], 5 if q else 6, props, limit=3000 if q else 40000)
+           ["md", "mdwrej", "fd", "fdodd", "wrej", "eof", "eofodd", "tick", "poll"], 5, props, limit=3000 if q else 40000)
     r.solo("srcSuspend", "S", f'Numbered({{ [SoloBase(1, 1, 1) EXCEPT !.mode = m, !.closure = TRUE, !.fhS = {sus}] : m \\in {{"ACK", "UNACK"}} }})',
            ["poll", "tick", "cancel", "ack"], 8 if q else 9, props, pre=[["put"], ["poll"], ["poll"], ["poll"]])
     tablesS = "{" + ", ".join(table(POSITIVE_ACK_LIMIT_REACHED=a, CHECK_LIMIT_REACHED=b) for a, b in itertools.product(CODES, CODES)) + "}"
